@@ -1,7 +1,7 @@
 (* One entry point for the OCaml runner: op name and byte-string arguments
    in, (result bytes, tag text) out.  All structure is decoded here, in Coq. *)
 From Coq Require Import NArith ZArith List Bool String.
-From GJ Require Import Base.Bytes Base.Show Model.Int Model.StrEnc Model.StrDec Model.Compact Model.Iface Model.Path Model.KeyBitmap Spec.Json Gen.Resets Model.Mem Base.TypeAddrBase Gen.TypeAddr Model.TypeCache Model.Stream Model.StreamInst Model.Enc Model.EncIndent Gen.Query Model.Query Model.Decode.
+From GJ Require Import Base.Bytes Base.Show Model.Int Model.StrEnc Model.StrDec Model.Compact Model.Iface Model.Path Model.KeyBitmap Spec.Json Gen.Resets Model.Mem Base.TypeAddrBase Gen.TypeAddr Model.TypeCache Model.Stream Model.StreamInst Model.Enc Model.EncIndent Gen.Query Model.Query Model.Decode Model.EncTyped.
 Import ListNotations.
 Open Scope N_scope.
 Open Scope string_scope.
@@ -171,5 +171,11 @@ Definition dispatch (op : list N) (args : list (list N)) : list N * list N :=
     (match parse_jv (S (List.length (arg 0 args))) (arg 0 args) with
      | Some (v, []) => marshal_indent (arg 1 args) (arg 2 args) v
      | _ => str "unparsed"
+     end, [])
+  else if list_eqb op (str "c01.typed") then
+    (* arg0: type, arg1: value -- wire formats of Model/Decode.v; result: what Marshal writes *)
+    (match parse_ty (S (List.length (arg 0 args))) (arg 0 args), parse_gv (S (List.length (arg 1 args))) (arg 1 args) with
+     | Some (t, []), Some (v, []) => marshal_typed t v
+     | _, _ => str "unparsed"
      end, [])
   else (str "no-model", []).
